@@ -27,7 +27,8 @@ if [ "${1:-}" = "C09" ] || [ "${1:-}" = "all" ]; then
     ../bin/yieldins "$COPY" verify/verify.go gcetcbendorsement/sevvalidate.go gcetcbendorsement/sevpolicy.go gcetcbendorsement/tdxvalidate.go gcetcbendorsement/tdxpolicy.go >/dev/null
     sed "s#=> /repo#=> $COPY#" go.mod > "$COPY/harness.mod"
     cp go.sum "$COPY/harness.sum"
-    go build -modfile="$COPY/harness.mod" -tags "verif verifyield" -o ../bin/verifsim-c09 ./cmd/verifsim
+    # a test binary built with the newer toolchain: the wall-clock scenario runs in a synctest bubble
+    go1.26.8 test -c -modfile="$COPY/harness.mod" -tags "verif verifyield" -o ../bin/verifsim-c09 ./worldr
   }
   # Lock()/RLock() statements are routed through the scheduler (TryLock + park); a receiver that has
   # no Try method does not compile that way, so fall back to plain yield insertion.
